@@ -28,7 +28,7 @@ from yaql import legacy
 
 ID = 'C02'
 LEAN_MODULES = ['Yaql.Props.C02', 'Yaql.Props.C02Table', 'Yaql.Props.C02Levels', 'Yaql.Props.C02Order',
-                'Yaql.Props.C02Iso', 'Yaql.Props.C02Gen', 'Yaql.Props.C03Parse', 'Yaql.Props.C02Hist'] + \
+                'Yaql.Props.C02Iso', 'Yaql.Props.C02Gen', 'Yaql.Props.C03Parse', 'Yaql.Props.C02Hist', 'Yaql.Props.C02Chain'] + \
     srcobl.modules('C02')   # Props/SrcOpTable
 REQUIRED_THEOREMS = [
     'Yaql.Props.C02.parse_sound', 'Yaql.Props.C02.parse_roundtrip', 'Yaql.Props.C02.parse_unique',
@@ -49,6 +49,10 @@ REQUIRED_THEOREMS = [
     'Yaql.Props.C02Hist.engine_stable', 'Yaql.Props.C02Hist.snapshot_kept', 'Yaql.Props.C02Hist.later_inserts_irrelevant',
     'Yaql.Props.C02Hist.copy_parses_like_origin', 'Yaql.Props.C02Hist.demo_snapshots',
     'Yaql.Props.C02Hist.regenerating_copy_differs',
+    'Yaql.Props.C02Chain.parse_leftChain', 'Yaql.Props.C02Chain.parse_rightChain', 'Yaql.Props.C02Chain.no_right_nesting',
+    'Yaql.Props.C02Chain.no_left_nesting', 'Yaql.Props.C02Chain.parse_repeat_left', 'Yaql.Props.C02Chain.parse_repeat_right',
+    'Yaql.Props.C02Chain.demo_left', 'Yaql.Props.C02Chain.demo_right', 'Yaql.Props.C02Chain.live_and_or_left',
+    'Yaql.Props.C02Chain.default_and_chain', 'Yaql.Props.C02Chain.default_or_chain',
 ] + srcobl.theorems('C02')
 TRUSTED = ["ply's LALR(1) table construction and precedence-based conflict resolution (differentially tested only)",
            'the real ply lexer is used to tokenise (the lexer model belongs to C01/C03/C16)']
@@ -750,6 +754,133 @@ def rand_flat(rng, eng, nmax=12):
     return flat_expr(seq, pl, suffixes_at=sl)
 
 
+def chain_tree(orc, ops, operands):
+    """the tree the table dictates for `x0 ops[0] x1 ops[1] ...` when all ops belong to ONE group and every operand is
+    closed against that group: left-deep or right-deep, as the group is declared - for every length"""
+    if orc.group_left(orc.bin_group(ops[0])):
+        t = operands[0]
+        for op, x in zip(ops, operands[1:]):
+            t = ['bin', op, None, t, x]
+        return t
+    t = operands[-1]
+    for op, x in zip(reversed(ops), reversed(operands[:-1])):
+        t = ['bin', op, None, x, t]
+    return t
+
+
+CHAIN_LENGTHS = [(9, 9), (10, 12), (13, 17), (18, 33), (34, 64)]
+
+
+def long_chains(rng, eng, orc, per_op=3, lengths=CHAIN_LENGTHS, only=None):
+    """LONG flat chains (>= 9 operands) of every binary operator of the table in force: one operator repeated, operators
+    of one group mixed; bare, under a prefix operator, in parentheses / argument lists / index expressions, with tighter
+    or looser operators at the ends, with parenthesised sub-chains as operands.  Yields (text, dictated tree or None):
+    the tree is given where it can be written down directly (all operands closed)."""
+    t = eng.table
+    syms = [s for s in t if s not in ('[]', '{}')]
+    bins = [s for s in syms if t[s][1]]
+    pres = [s for s in syms if t[s][0] > 0]
+    sufs = [s for s in syms if t[s][0] < 0]
+    by_group = {}
+    for s in bins:
+        by_group.setdefault(abs(t[s][1]), []).append(s)
+    n_leaf = len(LEAVES)
+    for s in bins:
+        if only is not None and s not in only:
+            continue
+        mates = by_group[abs(t[s][1])]
+        picks = rng.sample(lengths, min(per_op, len(lengths)))
+        if (9, 9) not in picks and rng.random() < 0.5:
+            picks[0] = (9, 9)
+        for k, (lo, hi) in enumerate(picks):
+            n = rng.randint(lo, hi)
+            ops = [s] * (n - 1) if k % 2 == 0 or len(mates) < 2 else [rng.choice(mates) for _ in range(n - 1)]
+            off = rng.randrange(n_leaf)
+            leaves = [LEAVES[(off + i) % n_leaf] for i in range(n)]
+            words = [x for _, x in leaves]
+            tree = None
+            if orc is not None and not eng.ambiguous:
+                try:
+                    tree = chain_tree(orc, ops, [x for x, _ in leaves])
+                except NotApplicable:
+                    tree = None
+            q = rng.random()
+            if q < 0.3:
+                # parenthesised sub-chains and stacked prefix / suffix operators on some operands
+                tree = None
+                for i in range(n):
+                    r = rng.random()
+                    if r < 0.12:
+                        m = rng.randint(2, 4)
+                        words[i] = '( ' + (' %s ' % rng.choice(mates)).join(rng.choice(OPERANDS) for _ in range(m)) + ' )'
+                    elif r < 0.2 and pres:
+                        words[i] = rng.choice(pres) + ' ' + words[i]
+                    elif r < 0.26 and sufs:
+                        words[i] = words[i] + ' ' + rng.choice(sufs)
+            parts = [words[0]]
+            for op, w in zip(ops, words[1:]):
+                parts += [op, w]
+            body = ' '.join(parts)
+            q = rng.random()
+            if q < 0.3:
+                yield body, tree
+                continue
+            tree_in = tree
+            tree = None
+            if q < 0.42 and pres:
+                yield rng.choice(pres) + ' ' + body, None
+            elif q < 0.52:
+                yield '( ' + body + ' )', (['wrap', tree_in] if tree_in is not None else None)
+            elif q < 0.60:
+                yield 'f( ' + body + ' , ' + body + ' )', None
+            elif q < 0.68:
+                yield '$a [ ' + body + ' ]', None
+            elif q < 0.74 and eng.delegates:
+                yield 'b ( ' + body + ' )', None
+            elif q < 0.80:
+                yield '[ 1 , ' + body + ' ]', None
+            else:
+                # other operators (tighter, looser, same group) at the ends
+                a, b = rng.choice(bins), rng.choice(bins)
+                w = rng.random()
+                if w < 0.35:
+                    yield "$b %s %s" % (a, body), None
+                elif w < 0.7:
+                    yield "%s %s 's'" % (body, b), None
+                else:
+                    yield "$b %s %s %s 's'" % (a, body, b), None
+
+
+def add_symbol_roles(b, family):
+    """every operator of the list is usable in every role it is declared in: the smallest trees (operator over leaves, and
+    under / over one standard neighbour) are dictated, so their spelling must come back as exactly these trees"""
+    orc = b.oracle
+    if orc is None or b.eng.ambiguous:
+        return
+    la, lb, lc = LEAVES[0][0], LEAVES[1][0], LEAVES[3][0]
+    for s, (up, bp, _aliases) in orc.t.items():
+        if s in ('[]', '{}'):
+            continue
+        trees = []
+        if bp:
+            trees += [['bin', s, None, la, lb], ['bin', s, None, ['wrap', ['bin', s, None, la, lb]], lc],
+                      ['bin', s, None, la, ['wrap', ['bin', s, None, lb, lc]]], ['list', ['bin', s, None, lc, la]]]
+        if up:
+            trees += [['un', s, None, la], ['un', s, None, ['wrap', ['un', s, None, lc]]], ['wrap', ['un', s, None, lb]]]
+        if up and bp:
+            trees += [['bin', s, None, la, ['wrap', ['un', s, None, lb]]]]
+        for t in trees:
+            b.add_tree(t, family)
+
+
+def add_long_chains(b, rng, family, per_op=3, lengths=CHAIN_LENGTHS, only=None):
+    for text, tree in long_chains(rng, b.eng, b.oracle, per_op, lengths, only):
+        if tree is not None:
+            b.add_tree(tree, family)
+        else:
+            b.add(text, family)
+
+
 def mutate(rng, eng, text):
     """token-level damage: delete / insert / replace one word"""
     syms = [s for s in eng.table if s not in ('[]', '{}')]
@@ -776,7 +907,11 @@ def soup(rng, eng, nmax):
 # custom tables
 SYMBOL_POOL = ['!', '!!', '~', '**', '==', '<>', '|', '||', '&', '&&', 'xor', 'is', 'div', '@', '%', '^', '-->',
                '>>', '<<', '?', ':', '..', '...', 'isnt', 'then', '=>>', '<-', '-', '+', '*', '/', 'not', 'and', '=',
-               '<', '.', '->', 'in', '#', '+++', '?..', '=~~']
+               '<', '.', '->', 'in', '#', '+++', '?..', '=~~'] + [
+    # identifier-shaped operator words: with underscores, digits, capitals (the lexer reads them with its keyword rule and
+    # has to find them in the operator table exactly as spelled)
+    'not_in', 'is_set', 'div2', 'starts_with', 'x_1', 'Is', 'AND', 'Not', 'mod2', '_in', 'in_', 'b2b', 'isNull', 'Xor_2',
+    '_', 'o0']
 
 
 def group_of_record(records, idx):
@@ -1324,6 +1459,10 @@ def run(env, res):
             b.add(soup(rng, e, rng.choice([3, 5, 8, 14])), 'soup')
         for _ in range(n_rand):
             b.add_random_tree(rng, rng.choice([2, 3, 3, 4]), 'dictated_trees')
+        # long chains: every binary operator of the table, 9 .. 64 operands (a few up to 150)
+        add_long_chains(b, rng, 'long_chains', per_op=5 if thorough else 4)
+        add_long_chains(b, rng, 'long_chains', per_op=1, lengths=[(65, 150)])
+        add_symbol_roles(b, 'symbol_roles')
         finish_batch(b)
 
     # 3. custom tables
@@ -1373,6 +1512,12 @@ def run(env, res):
             for other in syms:
                 for text in pair_texts(e, ns, other):
                     b.add(text, 'custom_pairs')
+        # long chains of every inserted operator, of the operators of the groups it went into, and of a sample of the others
+        mates = [s_ for s_ in syms if e.table[s_][1] and any(
+            ns in e.table and abs(e.table[ns][1] or e.table[ns][0]) == abs(e.table[s_][1]) for ns in new_syms)]
+        add_long_chains(b, rng, 'custom_long_chains', per_op=2,
+                        only=set(new_syms) | set(mates) | set(rng.sample(syms, min(6, len(syms)))))
+        add_symbol_roles(b, 'custom_symbol_roles')
         finish_batch(b)
         if len([f for f in res.failures if f.key != KNOWN_SUFFIX_KEY]) >= 8:
             break
@@ -1399,6 +1544,15 @@ def run(env, res):
         ('default', False, [dict(ex='-', bin=True, sym='--', ty=OT.BINARY_LEFT_ASSOCIATIVE, cg=False, alias=None, created=True),
                             dict(ex='*', bin=True, sym='div', ty=OT.BINARY_LEFT_ASSOCIATIVE, cg=False, alias=None, created=True),
                             dict(ex='not', bin=False, sym='++', ty=OT.PREFIX_UNARY, cg=False, alias=None)]))
+    # identifier-shaped operator words with underscores / digits / capitals in every role, on each kind of engine
+    for kind, delegates in (('default', False), ('default', True), ('legacy', False)):
+        probes.append((kind, delegates, [
+            dict(ex='in', bin=True, sym='not_in', ty=OT.BINARY_LEFT_ASSOCIATIVE, cg=False, alias=None, created=kind == 'legacy'),
+            dict(ex='not', bin=False, sym='is_set', ty=OT.PREFIX_UNARY, cg=False, alias='isset'),
+            dict(ex='*', bin=True, sym='div2', ty=OT.BINARY_LEFT_ASSOCIATIVE, cg=False, alias=None),
+            dict(ex='or', bin=True, sym='Or_Else', ty=OT.BINARY_RIGHT_ASSOCIATIVE, cg=True, alias=None),
+            dict(ex=None, bin=True, sym='is_null', ty=OT.SUFFIX_UNARY, cg=True, alias=None),
+            dict(ex='->', bin=True, sym='x2', ty=OT.SUFFIX_UNARY, cg=True, alias=None)]))
     for kind, delegates, ins in probes:
         try:
             e = Eng(kind, delegates, ins)
@@ -1417,6 +1571,8 @@ def run(env, res):
             b.add(rand_flat(rng, e, 6), 'probe_flat')
             b.add(rand_expr(rng, e, 3), 'probe_forms')
             b.add_random_tree(rng, 3, 'probe_dictated_trees')
+        add_long_chains(b, rng, 'probe_long_chains', per_op=3)
+        add_symbol_roles(b, 'probe_symbol_roles')
         finish_batch(b)
 
     # 4. a fixed probe: a suffix operator that shares its symbol with a binary operator
@@ -1508,7 +1664,13 @@ LEVEL_TEXT = ('Lean 4 theorems over a code-shaped model of insert_operator, _bui
               '(default, legacy, with/without delegates) and by differential runs of the compiled model against the '
               'real engine (exhaustive <=3 binary x <=2 prefix operators on both standard tables in the thorough tier, '
               'random forms, custom tables, dictated trees, token soups).')
-LEVEL_NOTE = ("round 5: EngineHist model of one factory over time (insert / create / copy) with C02Hist.snapshot_kept and "
+LEVEL_NOTE = ("round 6: C02Chain - chains of operators of one ply level are left-deep on a 'left' row and right-deep on a 'right' row for "
+              "EVERY number of operands and any operands closed against the level (parse_leftChain / parse_rightChain, one operator repeated: "
+              "parse_repeat_left/right), a tree nesting the other way is never WF (no_right_nesting / no_left_nesting), instances for the live "
+              "default table (default_and_chain, default_or_chain); correspondence: every binary operator of every table in chains of 9..150 "
+              "operands, bare and embedded; identifier-shaped operator words with underscores / digits / capitals in the symbol pool; the smallest "
+              "dictated trees for every symbol in every declared role. "
+              "round 5: EngineHist model of one factory over time (insert / create / copy) with C02Hist.snapshot_kept and "
               "later_inserts_irrelevant (an engine and all its copies, whenever made, parse by the table of create() time, for every later "
               "history); tied by replaying the same host operations on real factories and comparing every descendant with a fresh engine "
               "of creation time. trusted: Lean kernel; ply's LALR(1) construction and conflict resolution (the model is a precedence "
